@@ -140,6 +140,10 @@ Proof.
   intros Hp. unfold outstanding, set_pool; cbn [npools pools blocks nblocks].
   pose proof (sumn_set pool_out (pools st) (npools st) p P Hp). lia.
 Qed.
+Lemma out_set_cached st p c : outstanding (set_cached st p c) = outstanding st.
+Proof. reflexivity. Qed.
+Lemma inv_set_cached st p c : inv st -> inv (set_cached st p c).
+Proof. intros [A B C D E]. constructor; assumption. Qed.
 Lemma out_push_block st B : outstanding (push_block st B) = outstanding st + raw_out B.
 Proof.
   unfold outstanding, push_block; cbn [npools pools blocks nblocks].
@@ -153,7 +157,7 @@ Proof.
 Qed.
 
 (* ------------------------------------------------------------------ per-operation preservation *)
-Ltac proj := cbn [pools npools handles nhandles blocks nblocks
+Ltac proj := cbn [pools npools handles nhandles blocks nblocks cached
                   pparams pcount prefs pheld palive balive bpool bvt bn btag halive hpool hvt
                   o_dest o_origin o_pool o_allocs o_frees o_reparam] in *.
 
@@ -389,7 +393,7 @@ Lemma step_alloc st h n grow : inv st -> proto_ok st (OpAlloc h n grow) = true -
 Proof.
   intros I Hp HH. simpl in Hp. apply andb_true_iff in Hp as [Hok Hn]. apply handle_ok_spec in Hok as [Hh Ha].
   destruct (handle_pool_alive st h I Hh Ha) as [Hlt [Hr Hal]].
-  unfold step_good, step.
+  unfold step_good, step. cbv zeta.
   set (p := hpool (handles st h)) in *. set (vt := hvt (handles st h)) in *. set (P := pools st p) in *.
   (* raw branch, shared by n <> 1 (and, impossible under H, by n = 1 on a busy pool of other parameters) *)
   assert (Hraw : n <> 1%Z -> exists st' ob,
@@ -409,10 +413,12 @@ Proof.
     - unfold balanced; proj. rewrite out_push_block. unfold raw_out; proj. simpl. lia. }
   destruct (Z.eqb_spec n 1) as [->|Hn1]; [|apply Hraw; exact Hn1].
   destruct (params_eqb (get_params vt) (pparams P)) eqn:Eeq.
-  - (* parameters match: plain pool allocation *)
-    apply params_eqb_eq in Eeq. simpl.
+  - (* parameters match: plain pool allocation (from the cache or from a buffer) *)
+    apply params_eqb_eq in Eeq. cbn [negb andb].
+    set (g := if from_cache st p then O else grow).
+    set (c := if from_cache st p then Nat.pred (cached st p) else cached st p).
     eexists _, _. split; [reflexivity|]. split; [|split; [reflexivity|]].
-    + constructor; unfold push_block, set_pool; proj.
+    + constructor; unfold set_cached, push_block, set_pool; proj.
       * intros b Hb Hba. destruct (Nat.eq_dec b (nblocks st)) as [->|Hne].
         -- rewrite updn_same. unfold blk_inv; proj. rewrite updn_same; proj. auto.
         -- rewrite updn_other in * by lia. apply (blk_inv_frame st); [apply (i_blk _ I b); [lia|exact Hba] | proj; lia |].
@@ -424,8 +430,8 @@ Proof.
       * intros q Hq. unfold updn. destruct (Nat.eqb_spec q p) as [->|]; proj; apply (i_refs _ I); auto.
       * intros q Hq. unfold updn. destruct (Nat.eqb_spec q p) as [->|]; proj; apply (i_alive _ I); auto.
       * apply (i_hnd _ I).
-    + unfold balanced; proj. rewrite out_push_block. unfold raw_out; proj. simpl.
-      pose proof (out_set_pool st p (mkPool (pparams P) (S (pcount P)) (prefs P) (pheld P + grow) (palive P)) Hlt) as E.
+    + unfold balanced; proj. rewrite out_set_cached, out_push_block. unfold raw_out; proj. simpl.
+      pose proof (out_set_pool st p (mkPool (pparams P) (S (pcount P)) (prefs P) (pheld P + g) (palive P)) Hlt) as E.
       unfold pool_out in E; proj. fold P in E. rewrite Hal in E |- *. lia.
   - simpl. destruct (Nat.eqb_spec (pcount P) 0) as [Ec|Ec].
     + (* idle pool of other parameters: re-parameterised (line 119) *)
@@ -435,7 +441,7 @@ Proof.
         symmetry in C. pose proof (sumn_zero _ _ C b Hb) as Z0. cbv beta in Z0.
         rewrite (pooled_in_1 p _ Hba Hbp Hbq) in Z0. discriminate. }
       eexists _, _. split; [reflexivity|]. split; [|split; [reflexivity|]].
-      * constructor; unfold push_block, set_pool; proj.
+      * constructor; unfold set_cached, push_block, set_pool; proj.
         -- intros b Hb Hba. destruct (Nat.eq_dec b (nblocks st)) as [->|Hne].
            ++ rewrite updn_same. unfold blk_inv; proj. rewrite updn_same; proj. auto.
            ++ rewrite updn_other in * by lia. assert (b < nblocks st) as Hb' by lia.
@@ -448,7 +454,7 @@ Proof.
         -- intros q Hq. unfold updn. destruct (Nat.eqb_spec q p) as [->|]; proj; apply (i_refs _ I); auto.
         -- intros q Hq. unfold updn. destruct (Nat.eqb_spec q p) as [->|]; proj; apply (i_alive _ I); auto.
         -- apply (i_hnd _ I).
-      * unfold balanced; proj. rewrite out_push_block. unfold raw_out; proj. simpl.
+      * unfold balanced; proj. rewrite out_set_cached, out_push_block. unfold raw_out; proj. simpl.
         pose proof (out_set_pool st p (mkPool (get_params vt) 1 (prefs P) grow (palive P)) Hlt) as E.
         unfold pool_out in E; proj. fold P in E. rewrite Hal in E |- *. lia.
     + (* busy pool of other parameters: excluded by H *)
@@ -472,7 +478,7 @@ Proof.
   apply vt_eqb_eq in Hbv. apply Z.eqb_eq in Hbn.
   destruct (handle_pool_alive st h I Hh Ha) as [Hlt [Hr Hal]].
   destruct (i_blk _ I b Hb Hba) as [_ Htag].
-  unfold step_good, step. rewrite Hba.
+  unfold step_good, step. cbv zeta. rewrite Hba.
   set (p := hpool (handles st h)) in *. set (vt := hvt (handles st h)) in *. set (P := pools st p) in *.
   set (B := blocks st b) in *.
   destruct (btag B) as [q|s] eqn:Et.
@@ -485,8 +491,10 @@ Proof.
     pose proof (sumn_ge (nblocks st) (fun k => pooled_in p (blocks st k)) b Hb) as G. cbv beta in G.
     fold B in G. rewrite (pooled_in_1 p B Hba) in G by (try rewrite Et; auto).
     destruct (pcount P) as [|c] eqn:Ecn; [lia|].
+    set (fr := if use_cache P && negb (Nat.leb cached_free_block_count (cached st p)) then O else Nat.min shrink (pheld P)).
+    assert (Hfr : fr <= pheld P) by (unfold fr; destruct (use_cache P && negb (Nat.leb cached_free_block_count (cached st p))); lia).
     eexists _, _. split; [reflexivity|]. split; [|split].
-    + constructor; unfold set_block, set_pool; proj.
+    + constructor; unfold set_cached, set_block, set_pool; proj.
       * intros k Hk Hka. destruct (Nat.eq_dec k b) as [->|Hne]; [rewrite updn_same in Hka; discriminate|].
         rewrite updn_other in * by lia. apply (blk_inv_frame st); [apply (i_blk _ I k Hk Hka) | proj; lia |].
         proj. unfold updn. destruct (Nat.eqb_spec (bpool (blocks st k)) p) as [->|]; reflexivity.
@@ -503,12 +511,12 @@ Proof.
       * intros r Hrq. unfold updn. destruct (Nat.eqb_spec r p) as [->|]; proj; apply (i_alive _ I); auto.
       * apply (i_hnd _ I).
     + unfold routed_ok; proj. simpl. rewrite Hq1. apply params_eqb_refl.
-    + unfold balanced; proj.
-      pose proof (out_set_block (set_pool st p (mkPool (pparams P) c (prefs P) (pheld P - Nat.min shrink (pheld P)) (palive P)))
+    + unfold balanced; proj. rewrite out_set_cached.
+      pose proof (out_set_block (set_pool st p (mkPool (pparams P) c (prefs P) (pheld P - fr) (palive P)))
                     b (mkBlock false (bpool B) (bvt B) (bn B) (Pooled q))) as E1.
       specialize (E1 Hb). change (blocks (set_pool _ _ _) b) with B in E1.
       unfold raw_out at 1 2 in E1; proj. rewrite Et in E1. simpl in E1. rewrite andb_false_r in E1.
-      pose proof (out_set_pool st p (mkPool (pparams P) c (prefs P) (pheld P - Nat.min shrink (pheld P)) (palive P)) Hlt) as E2.
+      pose proof (out_set_pool st p (mkPool (pparams P) c (prefs P) (pheld P - fr) (palive P)) Hlt) as E2.
       unfold pool_out in E2; proj. fold P in E2. rewrite Hal in E1, E2 |- *. lia.
   - (* a raw block *)
     destruct Htag as [Hs Hn1]. rewrite Hbn in Hn1.
@@ -533,18 +541,69 @@ Proof.
       fold B in E1. unfold raw_out in E1; proj. rewrite Hba, Et in E1. simpl in E1. lia.
 Qed.
 
+Lemma step_move st h : inv st -> proto_ok st (OpMove h) = true -> step_good st (OpMove h).
+Proof. intros I Hp. exact (step_copy st h I Hp). Qed.
+
+(* allocate() in which the base allocator throws *)
+Lemma step_allocfail st h n grow : inv st -> proto_ok st (OpAllocFail h n grow) = true ->
+  step_good st (OpAllocFail h n grow).
+Proof.
+  intros I Hp. simpl in Hp. repeat rewrite andb_true_iff in Hp. destruct Hp as [[Hok Hn] Hcan].
+  apply handle_ok_spec in Hok as [Hh Ha].
+  destruct (handle_pool_alive st h I Hh Ha) as [Hlt [Hr Hal]].
+  unfold step_good, step. cbv zeta.
+  set (p := hpool (handles st h)) in *. set (vt := hvt (handles st h)) in *. set (P := pools st p) in *.
+  assert (Hnothing : exists st' ob, Ok (st, mkObs None None p 0 0 false) = Ok (st', ob) /\ inv st' /\
+            routed_ok ob = true /\ balanced st st' ob).
+  { eexists _, _. split; [reflexivity|]. split; [exact I|]. split; [reflexivity|]. unfold balanced; proj. lia. }
+  destruct (Z.eqb_spec n 1) as [->|Hn1]; [|exact Hnothing].
+  destruct (params_eqb (get_params vt) (pparams P)) eqn:Eeq; cbn [negb andb].
+  - destruct (from_cache st p) eqn:Efc; [simpl in Hcan; discriminate|].
+    eexists _, _. split; [reflexivity|]. split; [|split; [reflexivity|]].
+    + constructor; unfold set_pool; proj.
+      * intros b Hb Hba. apply (blk_inv_frame st); [apply (i_blk _ I b Hb Hba) | proj; lia |].
+        proj. unfold updn. destruct (Nat.eqb_spec (bpool (blocks st b)) p) as [->|]; reflexivity.
+      * intros q Hq. unfold updn. destruct (Nat.eqb_spec q p) as [->|]; proj; apply (i_cnt _ I); auto.
+      * intros q Hq. unfold updn. destruct (Nat.eqb_spec q p) as [->|]; proj; apply (i_refs _ I); auto.
+      * intros q Hq. unfold updn. destruct (Nat.eqb_spec q p) as [->|]; proj; apply (i_alive _ I); auto.
+      * apply (i_hnd _ I).
+    + unfold balanced; proj.
+      pose proof (out_set_pool st p (mkPool (pparams P) (pcount P) (prefs P) (pheld P + grow) (palive P)) Hlt) as E.
+      unfold pool_out in E; proj. fold P in E. rewrite Hal in E |- *. lia.
+  - destruct (Nat.eqb_spec (pcount P) 0) as [Ec|Ec]; [|exact Hnothing].
+    assert (Hnone : forall b, b < nblocks st -> balive (blocks st b) = true ->
+              is_pooled (btag (blocks st b)) = true -> bpool (blocks st b) <> p).
+    { intros b Hb Hba Hbp Hbq. pose proof (i_cnt _ I p Hlt) as C. fold P in C. rewrite Ec in C.
+      symmetry in C. pose proof (sumn_zero _ _ C b Hb) as Z0. cbv beta in Z0.
+      rewrite (pooled_in_1 p _ Hba Hbp Hbq) in Z0. discriminate. }
+    eexists _, _. split; [reflexivity|]. split; [|split; [reflexivity|]].
+    + constructor; unfold set_cached, set_pool; proj.
+      * intros b Hb Hba. apply (blk_inv_frame' st); [apply (i_blk _ I b Hb Hba) | proj; lia |].
+        intros Hbp. proj. rewrite updn_other; [reflexivity | apply (Hnone b Hb Hba Hbp)].
+      * intros q Hq. unfold updn. destruct (Nat.eqb_spec q p) as [->|]; proj; [|apply (i_cnt _ I); auto].
+        pose proof (i_cnt _ I p Hlt) as C. fold P in C. lia.
+      * intros q Hq. unfold updn. destruct (Nat.eqb_spec q p) as [->|]; proj; apply (i_refs _ I); auto.
+      * intros q Hq. unfold updn. destruct (Nat.eqb_spec q p) as [->|]; proj; apply (i_alive _ I); auto.
+      * apply (i_hnd _ I).
+    + unfold balanced; proj. rewrite out_set_cached.
+      pose proof (out_set_pool st p (mkPool (get_params vt) 0 (prefs P) grow (palive P)) Hlt) as E.
+      unfold pool_out in E; proj. fold P in E. rewrite Hal in E |- *. lia.
+Qed.
+
 (* ------------------------------------------------------------------ all histories *)
 Lemma step_good_all st o : inv st -> proto_ok st o = true -> h_ok st o = true -> step_good st o.
 Proof.
   intros I Hp HH. destruct o.
   - apply step_new; auto.
   - apply step_copy; auto.
+  - apply step_move; auto.
   - apply step_rebind; auto.
   - apply step_socc; auto.
   - apply step_assign; auto.
   - apply step_destroy; auto.
   - apply step_alloc; auto.
   - apply step_dealloc; auto.
+  - apply step_allocfail; auto.
 Qed.
 
 Fixpoint sum_allocs (l : list obs) : nat := match l with [] => 0 | o :: r => o_allocs o + sum_allocs r end.
@@ -631,12 +690,14 @@ Definition op_pools (st : state) (o : op) : list nat :=
   match o with
   | OpNew _ => []
   | OpCopy h => [hpool (handles st h)]
+  | OpMove h => [hpool (handles st h)]
   | OpRebind h _ => [hpool (handles st h)]
   | OpSocc h => []             (* reads only the base allocator of h's pool *)
   | OpAssign hd hs => [hpool (handles st hd); hpool (handles st hs)]
   | OpDestroy h => [hpool (handles st h)]
   | OpAlloc h _ _ => [hpool (handles st h)]
   | OpDealloc h _ _ _ => [hpool (handles st h)]
+  | OpAllocFail h _ _ => [hpool (handles st h)]
   end.
 
 (* pool q and the blocks obtained through it are untouched *)
@@ -663,6 +724,7 @@ Proof.
   - inversion E; subst; unfold push_handle, push_pool; proj. rewrite updn_other by lia. repeat split; auto; lia.
   - inversion E; subst; unfold push_handle, acquire, set_pool; proj. rewrite updn_other by (intuition congruence). repeat split; auto; lia.
   - inversion E; subst; unfold push_handle, acquire, set_pool; proj. rewrite updn_other by (intuition congruence). repeat split; auto; lia.
+  - inversion E; subst; unfold push_handle, acquire, set_pool; proj. rewrite updn_other by (intuition congruence). repeat split; auto; lia.
   - inversion E; subst; unfold push_handle, push_pool; proj. rewrite updn_other by lia. repeat split; auto; lia.
   - destruct (release (acquire st (hpool (handles st hs))) (hpool (handles st hd))) as [[s1 fr]| | |] eqn:Er; try discriminate.
     inversion E; subst. destruct (release_other _ _ q _ _ Er ltac:(intuition congruence)) as [Hp [Hb [Hnb _]]].
@@ -678,7 +740,7 @@ Proof.
       [destruct (negb (params_eqb (get_params (hvt (handles st h))) (pparams (pools st (hpool (handles st h))))) &&
                  Nat.eqb (pcount (pools st (hpool (handles st h)))) 0);
        [|destruct (params_eqb (get_params (hvt (handles st h))) (pparams (pools st (hpool (handles st h)))))]|];
-      inversion E; subst; unfold push_block, set_pool; proj; try rewrite updn_other by exact Hne;
+      inversion E; subst; unfold set_cached, push_block, set_pool; proj; try rewrite updn_other by exact Hne;
       (split; [reflexivity|]; split; [lia|]; split; [lia|];
        intros b Hb _; rewrite updn_other by lia; reflexivity).
   - assert (q <> hpool (handles st h)) as Hne by (intuition congruence).
@@ -689,10 +751,18 @@ Proof.
     { intros k Hk Hkq. unfold updn. destruct (Nat.eqb_spec k b) as [->|]; [|reflexivity]. congruence. }
     destruct ((n =? 1)%Z && params_eqb (get_params (hvt (handles st h))) (pparams (pools st (hpool (handles st h))))).
     + destruct (pcount (pools st (hpool (handles st h)))); [discriminate|].
-      inversion E; subst; unfold set_block, set_pool; proj. rewrite updn_other by exact Hne.
+      inversion E; subst; unfold set_cached, set_block, set_pool; proj. rewrite updn_other by exact Hne.
       split; [reflexivity|]. split; [lia|]. split; [lia | exact Hblk].
     + inversion E; subst; unfold set_block; proj.
       split; [reflexivity|]. split; [lia|]. split; [lia | exact Hblk].
+  - assert (q <> hpool (handles st h)) as Hne by (intuition congruence).
+    destruct (n =? 1)%Z;
+      [destruct (negb (params_eqb (get_params (hvt (handles st h))) (pparams (pools st (hpool (handles st h))))) &&
+                 Nat.eqb (pcount (pools st (hpool (handles st h)))) 0);
+       [|destruct (params_eqb (get_params (hvt (handles st h))) (pparams (pools st (hpool (handles st h)))));
+         [destruct (from_cache st (hpool (handles st h))); [discriminate|]|]]|];
+      inversion E; subst; unfold set_cached, set_pool; proj; try rewrite updn_other by exact Hne;
+      (split; [reflexivity|]; split; [lia|]; split; [lia|]; intros; reflexivity).
 Qed.
 
 (* a history none of whose operations goes through an allocator that shares pool q *)
@@ -910,7 +980,7 @@ Proof.
   (* ~tmp *)
   destruct (destroy_effect s3 t I3 K3t) as [s4 [o4 [E4 [I4 [M4 [A4 [F4 [N4 T4]]]]]]]].
   { apply (two_owners s3 t h2 I3 ltac:(lia) K3t K3b). rewrite G3, G2, Gt1, Gh3 by lia. reflexivity. }
-  exists s4, [o1; o2; o3; o4]. unfold swap_ops. fold t. cbn [run]. rewrite E1, E2, E3, E4.
+  exists s4, [o1; o2; o3; o4]. unfold swap_ops. fold t. cbn [run]. change (step st (OpMove h1)) with (step st (OpCopy h1)). rewrite E1, E2, E3, E4.
   split; [reflexivity|]. split; [exact I4|].
   split; [apply (same_mem_trans _ s1); [exact M1|]; apply (same_mem_trans _ s2); [exact M2|];
           apply (same_mem_trans _ s3); [exact M3 | exact M4]|].
@@ -978,6 +1048,133 @@ Proof.
       unfold handle_ok. rewrite N, G2. apply andb_true_iff; split; [apply Nat.ltb_lt; lia|reflexivity].
 Qed.
 
+(* ------------------------------------------------------------------ round 2 *)
+(* T5a': construction from an rvalue allocator is a COPY: the source keeps its pool (and stays usable), the
+   new allocator shares it, use_count goes up by one *)
+Theorem move_construction_is_copy : forall st h, inv st -> handle_ok st h = true ->
+  step st (OpMove h) = step st (OpCopy h) /\
+  exists st1 ob, step st (OpMove h) = Ok (st1, ob) /\ inv st1 /\ same_mem st st1 /\
+    handles st1 h = handles st h /\
+    handles st1 (nhandles st) = mkHandle true (hpool (handles st h)) (hvt (handles st h)) /\
+    prefs (pools st1 (hpool (handles st h))) = S (prefs (pools st (hpool (handles st h)))).
+Proof.
+  intros st h I Hok. split; [reflexivity|].
+  destruct (copy_effect st h I Hok) as [s1 [o1 [E1 [I1 [M1 [A1 [F1 [N1 T1]]]]]]]].
+  exists s1, o1. change (step st (OpMove h)) with (step st (OpCopy h)).
+  split; [exact E1|]. split; [exact I1|]. split; [exact M1|].
+  destruct (handle_ok_spec _ _ Hok) as [Hlt _].
+  split; [rewrite T1; destruct (Nat.eqb_spec h (nhandles st)); [lia|reflexivity]|].
+  split; [rewrite T1, Nat.eqb_refl; reflexivity|].
+  simpl in E1. inversion E1; subst. unfold push_handle, acquire, set_pool; proj. rewrite updn_same. reflexivity.
+Qed.
+
+(* T5b': move assignment (operator=) by the LAST owner of the destination's old pool, which no longer has
+   blocks: the old pool is destroyed and returns all its buffers plus its control block; the destination
+   now shares the source's pool, whose parameters / count / buffers / cache and all blocks are unchanged;
+   the source's deallocation rights carry over *)
+Theorem assign_last_owner_carry : forall st hd hs, inv st -> proto_ok st (OpAssign hd hs) = true ->
+  hpool (handles st hd) <> hpool (handles st hs) -> prefs (pools st (hpool (handles st hd))) = 1 ->
+  let pd := hpool (handles st hd) in let ps := hpool (handles st hs) in
+  exists st1 ob, step st (OpAssign hd hs) = Ok (st1, ob) /\ inv st1 /\
+    handles st1 hd = mkHandle true ps (hvt (handles st hd)) /\ (forall k, k <> hd -> handles st1 k = handles st k) /\
+    palive (pools st1 pd) = false /\ pool_out (pools st1 pd) = 0 /\
+    o_allocs ob = 0 /\ o_frees ob = S (pheld (pools st pd)) /\
+    pools st1 ps = mkPool (pparams (pools st ps)) (pcount (pools st ps)) (S (prefs (pools st ps))) (pheld (pools st ps)) (palive (pools st ps)) /\
+    palive (pools st ps) = true /\
+    (forall q, q <> pd -> q <> ps -> pools st1 q = pools st q) /\
+    (forall b, blocks st1 b = blocks st b) /\ nblocks st1 = nblocks st /\ (forall q, cached st1 q = cached st q) /\
+    (forall b n s, proto_ok st (OpDealloc hs b n s) = true -> proto_ok st1 (OpDealloc hd b n s) = true).
+Proof.
+  intros st hd hs I Hp Hne H1 pd ps.
+  destruct (step_assign st hd hs I Hp) as [st1 [ob [E [I1 _]]]]. exists st1, ob. split; [exact E|]. split; [exact I1|].
+  pose proof Hp as Hp'. simpl in Hp'. repeat rewrite andb_true_iff in Hp'. destruct Hp' as [[[Hokd Hoks] Hvt] Hlast].
+  destruct (handle_ok_spec _ _ Hokd) as [Hhd Had]. destruct (handle_ok_spec _ _ Hoks) as [Hhs Has].
+  destruct (handle_pool_alive st hd I Hhd Had) as [Hltd [Hrd Hald]].
+  destruct (handle_pool_alive st hs I Hhs Has) as [Hlts [Hrs Hals]].
+  fold pd in Hne, H1, Hlast, Hltd, Hrd, Hald. fold ps in Hne, Hlast, Hlts, Hrs, Hals.
+  assert (Hc0 : pcount (pools st pd) = 0).
+  { destruct (Nat.eqb_spec pd ps); [contradiction|]. rewrite H1 in Hlast. simpl in Hlast. apply (no_blocks_count st pd I Hltd Hlast). }
+  simpl in E. fold pd ps in E. unfold release, acquire, set_pool in E; proj.
+  rewrite (updn_other (pools st) ps _ pd Hne) in E. rewrite H1, Hc0 in E. simpl in E.
+  inversion E; subst st1 ob; clear E. unfold set_handle, set_pool; proj.
+  assert (Hps : ps <> pd) by congruence.
+  split; [rewrite updn_same; reflexivity|].
+  split; [intros k Hk; rewrite updn_other by exact Hk; reflexivity|].
+  split; [rewrite updn_same; reflexivity|].
+  split; [rewrite updn_same; reflexivity|].
+  split; [reflexivity|]. split; [reflexivity|].
+  split; [rewrite (updn_other _ pd _ ps Hps), updn_same; reflexivity|].
+  split; [exact Hals|].
+  split; [intros q Hq1 Hq2; rewrite !updn_other by assumption; reflexivity|].
+  split; [reflexivity|]. split; [reflexivity|]. split; [reflexivity|].
+  intros b n s P. simpl in P |- *. unfold handle_ok in *; proj. rewrite updn_same; proj.
+  repeat rewrite andb_true_iff in P. destruct P as [[[[[_ P1] P2] P3] P4] P5].
+  fold ps in P3. rewrite P1, P2, P3, P5. apply Nat.ltb_lt in Hhd. rewrite Hhd.
+  apply vt_eqb_eq in Hvt. rewrite Hvt, P4. reflexivity.
+Qed.
+
+(* T6: exception guarantee.  When the base allocator throws inside allocate(): no block is handed out, no
+   block / allocator object / other pool changes, GetAllocateCount and use_count of every pool are
+   unchanged, a pool that has outstanding blocks keeps its parameters (an IDLE pool of other parameters has
+   already been re-parameterised by line 119 - harmless, it is idle), the invariant holds and the base
+   allocator stays balanced (buffers obtained before the throw are owned by the pool and returned later). *)
+Theorem alloc_failure_guarantee : forall st h n grow, inv st -> proto_ok st (OpAllocFail h n grow) = true ->
+  exists st' ob, step st (OpAllocFail h n grow) = Ok (st', ob) /\ inv st' /\
+    o_dest ob = None /\ nblocks st' = nblocks st /\ (forall b, blocks st' b = blocks st b) /\
+    nhandles st' = nhandles st /\ (forall k, handles st' k = handles st k) /\ npools st' = npools st /\
+    (forall q, pcount (pools st' q) = pcount (pools st q) /\ prefs (pools st' q) = prefs (pools st q) /\
+               palive (pools st' q) = palive (pools st q) /\
+               (pcount (pools st q) <> 0 -> pparams (pools st' q) = pparams (pools st q) /\ cached st' q = cached st q) /\
+               (q <> hpool (handles st h) -> pools st' q = pools st q /\ cached st' q = cached st q)) /\
+    outstanding st' + o_frees ob = outstanding st + o_allocs ob.
+Proof.
+  intros st h n grow I Hp. destruct (step_allocfail st h n grow I Hp) as [st' [ob [E [I' [_ B]]]]].
+  exists st', ob. split; [exact E|]. split; [exact I'|]. unfold balanced in B.
+  assert (Hsame : forall o, Ok (st, o) = Ok (st', ob) -> o_dest o = None ->
+     o_dest ob = None /\ nblocks st' = nblocks st /\ (forall b, blocks st' b = blocks st b) /\
+    nhandles st' = nhandles st /\ (forall k, handles st' k = handles st k) /\ npools st' = npools st /\
+    (forall q, pcount (pools st' q) = pcount (pools st q) /\ prefs (pools st' q) = prefs (pools st q) /\
+               palive (pools st' q) = palive (pools st q) /\
+               (pcount (pools st q) <> 0 -> pparams (pools st' q) = pparams (pools st q) /\ cached st' q = cached st q) /\
+               (q <> hpool (handles st h) -> pools st' q = pools st q /\ cached st' q = cached st q))).
+  { intros o Eo Ho. inversion Eo; subst. repeat split; auto. }
+  simpl in E.
+  set (p := hpool (handles st h)) in *. set (P := pools st p) in *.
+  destruct (n =? 1)%Z.
+  2:{ destruct (Hsame _ E eq_refl) as [? [? [? [? [? [? ?]]]]]]. repeat (split; [assumption|]). exact B. }
+  destruct (params_eqb (get_params (hvt (handles st h))) (pparams P)) eqn:Eeq; cbn [negb andb] in E.
+  - destruct (from_cache st p); [discriminate|]. inversion E; subst st' ob; clear E. unfold set_pool in *; proj.
+    repeat (split; [reflexivity|]). split; [|exact B].
+    intros q. unfold updn. destruct (Nat.eqb_spec q p) as [->|Hq]; proj.
+    + split; [reflexivity|]. split; [reflexivity|]. split; [reflexivity|].
+      split; [intros _; split; reflexivity | intros C; contradiction].
+    + repeat split; reflexivity.
+  - destruct (Nat.eqb_spec (pcount P) 0) as [Ec|Ec].
+    + inversion E; subst st' ob; clear E. unfold set_cached, set_pool in *; proj.
+      repeat (split; [reflexivity|]). split; [|exact B].
+      intros q. unfold updn. destruct (Nat.eqb_spec q p) as [->|Hq]; proj.
+      * fold P. rewrite Ec. split; [reflexivity|]. split; [reflexivity|]. split; [reflexivity|].
+        split; intros C; contradiction.
+      * repeat split; reflexivity.
+    + destruct (Hsame _ E eq_refl) as [? [? [? [? [? [? ?]]]]]]. repeat (split; [assumption|]). exact B.
+Qed.
+
+(* T7: re-parameterising an IDLE pool whose cache still holds freed blocks of the old parameter set: the old
+   MemPool object (buffers and parked blocks) is gone, the new one has the requested parameters, an EMPTY
+   cache, count 1 and only the buffers obtained by this call *)
+Theorem reparam_forgets_cache : forall st h grow,
+  let p := hpool (handles st h) in let P := pools st p in
+  params_eqb (get_params (hvt (handles st h))) (pparams P) = false -> pcount P = 0 ->
+  exists st' ob, step st (OpAlloc h 1 grow) = Ok (st', ob) /\
+    cached st' p = 0 /\ pools st' p = mkPool (get_params (hvt (handles st h))) 1 (prefs P) grow (palive P) /\
+    o_reparam ob = true /\ o_frees ob = pheld P /\ o_allocs ob = grow /\
+    o_dest ob = Some (Pooled (get_params (hvt (handles st h)))).
+Proof.
+  intros st h grow p P Hne Hc. unfold step. cbv zeta. fold p. fold P. rewrite Hne, Hc. simpl.
+  eexists _, _. split; [reflexivity|]. unfold set_cached, push_block, set_pool; proj. rewrite !updn_same.
+  repeat split; reflexivity.
+Qed.
+
 (* ------------------------------------------------------------------ outside the claim: without H *)
 Definition t24 : vtype := mkVt 24 8.
 Definition t40 : vtype := mkVt 40 8.
@@ -1023,7 +1220,7 @@ Definition demo_ops : list op :=
     OpSocc 1;                 (* h3 node allocator of the copy B: new pool 1 *)
     OpAlloc 3 1 2;            (* b3 *)
     OpAlloc 3 1 0 ]           (* b4 *)
-  ++ swap_ops (mkState (fun _ => dead_pool) 2 (fun _ => dead_handle) 4 (fun _ => dead_block) 5) 1 3 ++
+  ++ swap_ops (mkState (fun _ => dead_pool) 2 (fun _ => dead_handle) 4 (fun _ => dead_block) 5 (fun _ => O)) 1 3 ++
   [ OpDealloc 1 3 1 0;        (* A (now on pool 1) frees B's former nodes *)
     OpDealloc 1 4 1 1;
     OpDestroy 1;              (* last owner of pool 1: pool destroyed *)
